@@ -366,7 +366,7 @@ func init() {
 	register("c01", "desired ordinals: helpers and controller vs reference (bounded-exhaustive inputs)", func([]string) int {
 		thorough := explore.Tier() == "thorough"
 		rep := explore.NewReport("C01", "model_checking")
-		rep.Rule = "bounded-exhaustive inputs: replicas 0..6 (thorough 0..8) x {annotation absent, nil annotation map, 18 malformed/edge values, every subset of {-2..8} with <=4 (thorough <=5) members and int32-extreme sets, each in canonical/permuted/duplicated/whitespace encodings}; every helper compared with the reference model (first r non-negative integers not listed); the real controller run on an empty cluster under Parallel (one reconcile) and OrderedReady (reconcile/kubelet loop to quiescence) for every input with distinct slot sets; plus edit journeys on the real controller: replicas 0..3, slots s1 then s2 over all pairs of subsets of {0..3} with <=2 members (s2 may remove the annotation), with and without a template edit, both policies, each phase run to quiescence: the pods must end at exactly desired(r, s2). Non-trivial = the annotation denotes at least one slot."
+		rep.Rule = "bounded-exhaustive inputs: replicas 0..6 (thorough 0..8) x {annotation absent, nil annotation map, 18 malformed/edge values, every subset of {-2..8} with <=4 (thorough <=5) members and int32-extreme sets, each in canonical/permuted/duplicated/whitespace encodings}; every helper compared with the reference model (first r non-negative integers not listed); the real controller run on an empty cluster under Parallel (one reconcile) and OrderedReady (reconcile/kubelet loop to quiescence) for every input with distinct slot sets; plus edit journeys on the real controller: replicas 0..3, slots s1 then s2 over all pairs of subsets of {0..3} with <=2 members (s2 may remove the annotation), with and without a template edit, both policies, each phase run to quiescence: the pods must end at exactly desired(r, s2); and sets that own a healthy pod named <set>-(2^32+k), which is no member, must still create ordinal k. Non-trivial = the annotation denotes at least one slot."
 		rep.Assumptions = []string{"for values that are not a JSON list of int32 the reference reads 'no slots' (the annotation codec's own contract)", "replicas near MaxInt32 are out of bound (the reconciler allocates a slice of that length)"}
 		var inputs []c01Input
 		c01Inputs(thorough, func(in c01Input) { inputs = append(inputs, in) })
@@ -445,6 +445,55 @@ func init() {
 		}
 		close(jch)
 		jwg.Wait()
+		// pods whose numeric suffix does not fit an int32 are no members: an owned, healthy, up-to-date pod named
+		// <set>-(2^32+k) must not stand in for ordinal k
+		{
+			w := world.New()
+			for r := int32(1); r <= 3; r++ {
+				for _, sl := range gen.Subsets([]int32{0, 1, 2, 3}, 1) {
+					ref := refSet(sl)
+					for _, k := range oracle.Desired(r, ref) {
+						for _, pol := range []string{"Parallel", "OrderedReady"} {
+							sp := gen.Spec{Name: "web", Replicas: r, Slots: sl, Policy: pol, Strategy: gen.RU(0), Limit: 10, Template: 1}
+							sc := gen.Scenario{Spec: sp, Revs: []int{1}, Cur: 0, Far: []int{1<<32 + int(k)}}
+							st := sc.Build(w)
+							w.Lag = 0
+							w.Load(st)
+							label := fmt.Sprintf("r=%d slots=%v %s with an owned pod web-%d", r, sl, pol, 1<<32+int(k))
+							for i := 0; i < 40; i++ {
+								rec := w.Reconcile(world.NS+"/web", nil)
+								rep.AddStates(1, 1)
+								if rec.Panic != nil {
+									rep.Violation("C01", "controller-panic", label+": "+fmt.Sprint(rec.Panic), nil)
+									break
+								}
+								progressed := len(rec.Writes()) > 0
+								for _, l := range world.EnvProgress(w.S) {
+									world.Apply(w.S, l, 0)
+									progressed = true
+								}
+								if !progressed {
+									break
+								}
+							}
+							var missing []int32
+							for _, d := range oracle.Desired(r, ref) {
+								if _, ok := w.S.API.Pods[gen.PodName("web", int(d))]; !ok {
+									missing = append(missing, d)
+								}
+							}
+							if len(missing) > 0 {
+								rep.Violation("C01", "controller-pods-with-oversized-ordinal", fmt.Sprintf("%s: desired ordinals %v were never created", label, missing), nil)
+							}
+							h := sha256.Sum256([]byte(label))
+							var kk [16]byte
+							copy(kk[:], h[:16])
+							rep.Count(kk, true, "oversized ordinal")
+						}
+					}
+				}
+			}
+		}
 		rep.Validated = rep.States
 		return rep.Finish()
 	})
